@@ -118,7 +118,7 @@ def j_nick(ctx):
                 same_time = (g('signon') == so_user) if (is_sym(g('signon')) or is_sym(so_user)) else (g('signon') == so_user)
                 obs.append(('nick:history-entry', 'NICK: the WHOWAS record carries the sign-on time of the user', Implies(ok, same_time)))
                 obs.append(('nick:history-entry', 'NICK: the WHOWAS record carries the user name, host and real name of the user',
-                            Implies(ok, And(M.values_equal(g('username'), mkstr(w.spec.uname(a))), M.values_equal(g('hostname'), mkstr('127.0.0.1')), M.values_equal(g('realname'), mkstr('Real ' + a))))))
+                            Implies(ok, And(M.values_equal(g('username'), mkstr(w.spec.uname(a))), M.values_equal(g('hostname'), mkstr('127.0.0.1')), M.values_equal(g('realname'), mkstr(w.spec.realname(a)))))))
         except Exception:
             pass
         cn = fld(ctx.prog, fld(ctx.prog, ctx.conn['cell'].v, 'user_state'), 'nick')
